@@ -58,6 +58,9 @@ type Case struct {
 	N     int    `json:"n,omitempty"`    // literal argument count of call-like templates
 	Name  string `json:"name,omitempty"` // member name
 	Slots []Slot `json:"slots"`
+	// Fix names the substitution fixSlots made to keep the case inside the domain ("" = none); counted as
+	// class "constr:<Fix>"
+	Fix string `json:"fix,omitempty"`
 }
 
 // ---------------------------------------------------------------- values
@@ -122,6 +125,14 @@ var compounds = []compound{
 	// the baseline then holds the Go value itself
 	{"named_durv", "named", fm(`$ = hdurv`), "", -1},
 	{"named_lvlv", "named", fm(`$ = hlvlv`), "", -1},
+	// typed nils of kind chan and func (added after the sixth round). A script can make a nil channel (the zero
+	// element of a made []chan T) but no nil function: those are bound by the host, as a plain variable and as
+	// the unset field of a host struct (an unset callback, an unset event channel)
+	{"ch_nil", "nilchan", fm(`$ = make([]chan int64, 1)[0]`), "chan int64", -1},
+	{"ch_nil_h", "nilchan", fm(`$ = hnilch`), "chan int64", -1},
+	{"ch_nil_fld", "nilchan", fm(`$ = hhooks.Events`), "chan int64", -1},
+	{"fn_nil_h", "nilfunc", fm(`$ = hnilfn`), "", -1},
+	{"fn_nil_fld", "nilfunc", fm(`$ = hhooks.OnDone`), "", -1},
 	{"st_val", "struct", fm("$ = make(struct{A int64, B string})\n$.A = 3\n$.B = \"s\""), "", -1},
 	{"st_iface", "struct", fm("$ = make(struct{A interface, B []int64})\n$.A = \"x\""), "", -1},
 	{"mod", "mod", fm("module $ {\na = 1\nb = \"s\"\nfunc f() { return 2 }\n}"), "", -1},
@@ -148,11 +159,15 @@ func init() {
 	kindsByCat["iterable"] = append(append(append([]string{}, kindsByCat["slice"]...), kindsByCat["map"]...), "ch_closed", "ch_closed_empty")
 	kindsByCat["hasmember"] = append(append(append([]string{}, kindsByCat["map"]...), kindsByCat["struct"]...), "mod", "pt_struct", "mod", "named_dur", "named_strs", "named_dur", "named_strs", "named_durv", "named_lvlv", "named_durv", "named_lvlv")
 	kindsByCat["settable"] = append(append([]string{}, kindsByCat["map"]...), "mod", "pt_struct", "pt_struct", "mod")
-	kindsByCat["truthy"] = []string{"true", "false", "int", "float", "str", "nil", "sl_empty", "sl_ints", "mp_empty", "mp_str", "pt_int0", "pt_int5", "pt_bool", "pt_str", "pt_nil", "sl_nil", "mp_nil"}
+	kindsByCat["truthy"] = []string{"true", "false", "int", "float", "str", "nil", "sl_empty", "sl_ints", "mp_empty", "mp_str", "pt_int0", "pt_int5", "pt_bool", "pt_str", "pt_nil", "sl_nil", "mp_nil", "ch_nil", "fn_nil_h"}
+	// every typed nil: pointer, slice, map, channel, function
+	kindsByCat["tnil"] = append(append([]string{"pt_nil", "sl_nil", "mp_nil"}, kindsByCat["nilchan"]...), kindsByCat["nilfunc"]...)
+	// the left operand of ??: nil, the typed nils, and values of the same kinds that are not nil
+	kindsByCat["nilable"] = append(append([]string{"nil", "nil"}, kindsByCat["tnil"]...), "pt_int5", "sl_empty", "mp_empty", "ch_open", "fn0", "int", "str", "false")
 	kindsByCat["key"] = []string{"str", "int", "str", "true", "float"}
 	kindsByCat["sliceish"] = kindsByCat["slice"]
 	// the "any" distribution gives every category a comparable share
-	for _, cat := range []string{"scalar", "slice", "map", "ptr", "chan", "func", "struct", "mod"} {
+	for _, cat := range []string{"scalar", "slice", "map", "ptr", "chan", "func", "struct", "mod", "tnil"} {
 		allKinds = append(allKinds, cat)
 	}
 }
@@ -335,7 +350,22 @@ var knownConv = map[string]string{
 // holding it, so `x ?? y` kept the wrapped nil and equal() (in, switch) did not
 // match it with nil. The shape is generated and asserted like any other; it
 // keeps its own class counter and, should it regress, its own signature.
-var typedNil = map[string]bool{"pt_nil": true, "sl_nil": true, "mp_nil": true}
+var typedNil = map[string]bool{"pt_nil": true, "sl_nil": true, "mp_nil": true,
+	"ch_nil": true, "ch_nil_h": true, "ch_nil_fld": true, "fn_nil_h": true, "fn_nil_fld": true}
+
+// nilKind is "chan" / "func" for the typed nils added after the sixth round (a nil test that looks through an
+// interface value for some kinds only), "" for the others.
+func nilKind(k string) string {
+	if cp, ok := compoundByName[k]; ok {
+		switch cp.cat {
+		case "nilchan":
+			return "chan"
+		case "nilfunc":
+			return "func"
+		}
+	}
+	return ""
+}
 
 var nilPtrPos = map[string][]int{"coalesce": {0}, "in": {0}, "switch": {0, 1}}
 
@@ -364,6 +394,20 @@ func knownPtrShape(c Case, i int) bool {
 		}
 	}
 	return false
+}
+
+// lastIfaceHop names the hop that leaves the value interface-held at the end of the chain.
+func lastIfaceHop(chain []string) string {
+	r := "none"
+	for _, hp := range chain {
+		switch hp {
+		case "elem", "id", "sfield_i":
+			r = hp
+		case "mapidx", "mapdot", "sfield_t":
+			r = "none"
+		}
+	}
+	return r
 }
 
 func genChain(t *rapid.T, v Val, force bool) []string {
@@ -436,7 +480,7 @@ var templates = []template{
 	{name: "go", weight: 2, prefs: []string{"func"}},
 	{name: "repeat", weight: 1, prefs: []string{"num"}},
 	{name: "typedlit", weight: 2, prefs: []string{"scalar"}, ops: []string{"[]int64", "[]string", "[]interface", "[]float64", "mapval", "mapkey", "[][]int64"}},
-	{name: "coalesce", weight: 2, prefs: []string{"any", "scalar"}},
+	{name: "coalesce", weight: 2, prefs: []string{"nilable", "scalar"}},
 	{name: "destructure", weight: 2, prefs: []string{"sliceish"}, ops: []string{"let", "var"}},
 	{name: "letmapitem", weight: 1, prefs: []string{"map", "key"}},
 	// the value is what a script function returns to Go: a callback with one result, with two results (a
@@ -480,11 +524,27 @@ func fixSlots(c *Case) {
 		if s[0].V.K == "fnrec" || s[0].V.K == "fnmut" {
 			s[0].V = Val{K: "fn2"}
 		}
+	case "send", "recv":
+		// excluded: sending to and receiving from a nil channel block forever
+		if s[0].V.cat() == "nilchan" {
+			s[0].V = Val{K: "ch_open"}
+			c.Fix = "nil-channel-would-block|" + c.T
+		}
+		// `x <- c` with a channel on the right receives from it
+		if c.T == "send" && s[1].V.cat() == "nilchan" {
+			s[1].V = Val{K: "ch_open"}
+			c.Fix = "nil-channel-would-block|send-rhs"
+		}
 	case "forin":
 		// an open channel would block after it is drained
 		switch s[0].V.K {
 		case "ch_open", "ch_iface":
 			s[0].V = Val{K: "ch_closed"}
+		}
+		// excluded: ranging over a nil channel blocks forever
+		if s[0].V.cat() == "nilchan" {
+			s[0].V = Val{K: "ch_closed"}
+			c.Fix = "nil-channel-would-block|" + c.T
 		}
 	case "setidx":
 		// excluded: string element store and append-at-len need a variable to
@@ -845,8 +905,27 @@ type hostLevel int64
 func (l hostLevel) String() string  { return fmt.Sprintf("level-%d", int64(l)) }
 func (l hostLevel) Next() hostLevel { return l + 1 }
 
+// hostHooks is a host struct whose callback and event channel are not set.
+type hostHooks struct {
+	OnDone func(int64) int64
+	Events chan int64
+}
+
+// hostBox is a host struct whose fields a script reads and assigns (a settings or state object).
+type hostBox struct {
+	I int64
+	S string
+	F float64
+	B bool
+	X interface{}
+	L []int64
+	M map[string]int64
+	P *int64
+}
+
 func newEnv() *env.Env {
 	e := env.NewEnv()
+	e.Define("hbox", &hostBox{})
 	e.Define("id", func(x interface{}) interface{} { return x })
 	e.Define("gpair", func(a, b interface{}) []interface{} { return []interface{}{a, b} })
 	e.Define("gi", func(a int64) int64 { return a + 1 })
@@ -868,6 +947,9 @@ func newEnv() *env.Env {
 	e.Define("gbytes", func(b []byte) int64 { return int64(len(b)) })
 	e.Define("hdurv", 90*time.Second)
 	e.Define("hlvlv", hostLevel(3))
+	e.Define("hnilch", (chan int64)(nil))
+	e.Define("hnilfn", (func())(nil))
+	e.Define("hhooks", &hostHooks{})
 	e.Define("hstrs", func() interface{} { return sort.StringSlice{"b", "a", "c"} })
 	e.Define("gsum", func(xs ...int64) int64 {
 		var s int64
@@ -956,6 +1038,15 @@ func exec(ctx context.Context, e *env.Env, stmt ast.Stmt) (v interface{}, err er
 }
 
 func run(c Case, src string) outcome {
+	names := append([]string{}, stateNames...)
+	for i := range c.Slots {
+		names = append(names, fmt.Sprintf("v%d", i))
+	}
+	return runNames(src, names)
+}
+
+// runNames runs src in a fresh env and renders the result and the final content of the named variables.
+func runNames(src string, names []string) outcome {
 	stmt, perr := parser.ParseSrc(src)
 	if perr != nil {
 		return outcome{parseErr: perr}
@@ -979,10 +1070,6 @@ func run(c Case, src string) outcome {
 	if err == nil {
 		out.typ = typeOf(v)
 		out.res = normAddr(render(v, 0))
-	}
-	names := append([]string{}, stateNames...)
-	for i := range c.Slots {
-		names = append(names, fmt.Sprintf("v%d", i))
 	}
 	for _, n := range names {
 		x, gerr := e.Get(n)
@@ -1076,7 +1163,16 @@ func oracle(c Case, o *h.Obs) *h.Fail {
 	for i := range c.Slots {
 		if nilPtrShape(c, i) {
 			o.Class("typed-nil-through-interface|" + c.T)
+			if nk := nilKind(c.Slots[i].V.K); nk != "" {
+				o.Class("nil-" + nk + "-through-interface|" + c.T + "|" + lastIfaceHop(c.Slots[i].Chain))
+			}
 		}
+		if nk := nilKind(c.Slots[i].V.K); nk != "" {
+			o.Class("nil-" + nk + "|" + c.T)
+		}
+	}
+	if c.Fix != "" {
+		o.Class("constr:" + c.Fix)
 	}
 
 	b := run(c, baseSrc)
@@ -1128,7 +1224,12 @@ func oracle(c Case, o *h.Obs) *h.Fail {
 	hop := differingHop(c, b, clause)
 	for i := range c.Slots {
 		if nilPtrShape(c, i) && (hop == lastHop(c.Slots[i]) || strings.HasPrefix(hop, fmt.Sprintf("slot%d:", i))) {
-			return h.Failf("C20|typed-nil-through-interface-not-nil|isNil", "%s (template %s, last hop %s)\nbaseline program:\n%s\nchained program:\n%s", detail, tn, hop, baseSrc[len(prelude):], chSrc[len(prelude):])
+			sig := "C20|typed-nil-through-interface-not-nil|isNil"
+			if nk := nilKind(c.Slots[i].V.K); nk != "" {
+				// a nil test that looks through the interface value for some kinds only
+				sig += "|" + nk
+			}
+			return h.Failf(sig, "%s (template %s, last hop %s)\nbaseline program:\n%s\nchained program:\n%s", detail, tn, hop, baseSrc[len(prelude):], chSrc[len(prelude):])
 		}
 	}
 	for i := range c.Slots {
@@ -1178,7 +1279,7 @@ func differingHop(c Case, b outcome, clause string) string {
 	return "multi:" + strings.Join(hs, "+")
 }
 
-const rule = "case = (template, operand value per slot, provenance chain per slot); templates: unary - ! ^, 17 binary operators, x[i], x[i:j], len, in, call, call argument, spread call, member, deref, for-in, switch subject/case, if/else-if, for condition, ternary, make sizes, send, receive (3 forms), close, delete, throw, x[i]=v, x.k=v, *x=v, defer, go, string repeat, typed literal element/key, ??, destructuring let/var, `a, b = m[k]`; values: nil, bools, ints (small or >=2^53), floats, strings, untyped/typed slices and maps incl. a nil typed slice and a nil typed map, pointers (new(T), &v, typed nil pointer), channels (buffered, never blocking), script functions, struct values, a module; every value is created once in a prelude variable, the baseline uses the variable, the chained program routes it through 1..3 hops of {slice element, map entry [k] and .k, script call, Go id(), parentheses, ternary, ??, struct field typed interface or typed as the value}; excluded by construction: append-at-len and string element store, element/member store into a nil map, field store into a struct value, x++/x+=, &x, nil maps, for-in over an open channel; non-trivial = at least one slot's LAST hop is slice element, map entry, script call, Go call or interface-typed struct field (no template is a plain assignment); distinct by chained source text"
+const rule = "case = (template, operand value per slot, provenance chain per slot); templates: unary - ! ^, 17 binary operators, x[i], x[i:j], len, in, call, call argument, spread call, member, deref, for-in, switch subject/case, if/else-if, for condition, ternary, make sizes, send, receive (3 forms), close, delete, throw, x[i]=v, x.k=v, *x=v, defer, go, string repeat, typed literal element/key, ??, destructuring let/var, `a, b = m[k]`; values: nil, bools, ints (small or >=2^53), floats, strings, untyped/typed slices and maps incl. a nil typed slice and a nil typed map, pointers (new(T), &v, typed nil pointer), channels (buffered, never blocking), a nil channel (script-made, host variable, unset field of a host struct), script functions, a nil function (host variable, unset callback field of a host struct), struct values, a module; every value is created once in a prelude variable, the baseline uses the variable, the chained program routes it through 1..3 hops of {slice element, map entry [k] and .k, script call, Go id(), parentheses, ternary, ??, struct field typed interface or typed as the value}; excluded by construction: append-at-len and string element store, element/member store into a nil map, field store into a struct value, x++/x+=, &x, nil maps, for-in over an open channel, send to / receive from / for-in over a nil channel (they block forever; counted as constr:nil-channel-would-block); non-trivial = at least one slot's LAST hop is slice element, map entry, script call, Go call or interface-typed struct field (no template is a plain assignment); distinct by chained source text"
 
 func TestC20(t *testing.T) {
 	c := h.New(t, "C20")
@@ -1186,4 +1287,5 @@ func TestC20(t *testing.T) {
 	ctxRef = c
 	c.Rule(rule)
 	h.Run(c, "provenance", c.N(40000, 400000), genCase, oracle)
+	runHeld(c)
 }
